@@ -98,7 +98,14 @@ fn base_pool_srcs() -> Vec<String> {
     for x in [
         "0", "1", "(0-1)", "2", "3", "(7^1)", "(2^70+5-2^70)", "2^53-1", "2^53", "2^53+1", "2^53+2", "2^63-1", "2^63",
         "2^63+1", "(0-2^63)", "(0-2^63-1)", "2^64", "2^64+1", "2^100", "2^100+1", "10^30", "2^1024", "(0-2^1024)",
-        "2^1023", "(2^1024-2^970)", "(2^1024-2^970+1)", "(2^63-1024)", "(0-2^63-2048)", "2^64-1", "2^64-2048", "2^31", "2^32",
+        "2^1023", "(2^1024-2^970)", "(2^1024-2^970+1)",
+        // every machine-word boundary in BOTH representations: literals are Small, `^`, differences of
+        // big values and `n^1` are Big (also when the value fits an i64)
+        "(0-9223372036854775807-1)", "((0-2)^63)", "((0-9223372036854775807-1)^1)", "9223372036854775807",
+        "(9223372036854775807^1)", "(0-9223372036854775807)", "(0-2^63+1)", "9223372036854775806", "(2^63-2)",
+        "9007199254740992", "9007199254740993", "9007199254740991", "2147483648", "(2147483648^1)", "(0-2147483648)",
+        "((0-2147483648)^1)", "2147483647", "(2^31-1)", "4294967296", "(0^1)", "(2^70+0-2^70)", "(1^1)", "(2^70-1-2^70)",
+        "((0-1)^1)", "(2^1)", "(2^63-1024)", "(0-2^63-2048)", "2^64-1", "2^64-2048", "2^31", "2^32",
     ] {
         v.push(s(x));
     }
@@ -132,7 +139,9 @@ fn base_pool_srcs() -> Vec<String> {
         "null", "(\\x -> x)", "\"\"", "\"a\"", "\"ab\"", "\"b\"", "\"\u{e9}\"", "\"z\"", "\"\u{10000}\"", "\"\u{ffff}\"",
         "B\"\"", "B\"a\"", "B\"ab\"", "[]", "[1]", "[1, 2]", "[1, 2.0]", "[1.0, 2]", "[1, [2]]", "[1, \"a\"]",
         "[0.0/0.0]", "[1, 0.0/0.0]", "[2, 0.0/0.0]", "[\"a\"]", "[[1]]", "[[1.0]]", "[1/2]", "[0.5]", "[2^53+1]",
-        "[9007199254740992.0]", "[1, 2, 3]", "[2]", "V()", "V(1, 2)", "V(1.0, 2)", "V(1, 3)", "V(1/2)", "V(0.5)",
+        "[9007199254740992.0]", "[1, 2, 3]", "[2]", "[0-9223372036854775807-1]", "[0-2^63]", "[0-9223372036854775808.0]",
+        "[9223372036854775807]", "[2^63-1]", "[1, 0-9223372036854775807-1]", "[1.0, 0-2^63]", "V(0-9223372036854775807-1)", "V(0-2^63)",
+        "V(0-9223372036854775808.0)", "V(9223372036854775807)", "V(2^63-1)", "V()", "V(1, 2)", "V(1.0, 2)", "V(1, 3)", "V(1/2)", "V(0.5)",
         "V(0.0/0.0)", "{}", "{1: 2}", "{1.0: 2}", "{1: 3}", "{1: 2, \"a\": 3}",
     ] {
         v.push(s(x));
